@@ -4,7 +4,7 @@ from .. import simprop
 ID = "C09"
 FAMILY = "C09"
 VARIANTS = ("asan",)
-BUDGET = {"quick": dict(examples=16000, seconds=60), "thorough": dict(examples=400000, seconds=540)}
+BUDGET = {"quick": dict(examples=80000, seconds=55), "thorough": dict(examples=2000000, seconds=540)}
 NONTRIVIAL = {'restart', 'end-with-obligations', 'end-with-waiters'}
 PROFILES = [(4, 'lifecycle'), (2, 'timing'), (1, 'mixed')]
 RULE = ('Hypothesis-generated scenarios (profiles lifecycle 57%, timing 29%, mixed 14%): processes ending by return / exit / stop-by-other / stop-self while running, holding resources and pool units, blocked on any wait, with timers armed and wake-ups pending, with waiters, followed by restarts. Oracle: every waiter returns once in the end instant with SUCCESS (normal end) or STOPPED (stop) or leaves for another ledgered reason; after the end event the library attributes no holding to the ended process, no event with it as subject remains, it produces no further trace record, status is FINISHED and the exit value is the returned / exited / stopped value; a restarted process enters its function with its own handle and context and nothing held. Non-trivial = the ending process had holdings, timers or a wait in progress, or had waiters, or was restarted. distinct = SHA-1 of the scenario text.')
